@@ -344,6 +344,10 @@ def run(rep, tier):
         clause_d(facts, rep)
         clause_e(facts, rep)
         clause_kind_dispatch(facts, rep)
+        if cfg == 'K1':
+            # the serializer writes the digits where the length is then taken from: no buffer address kept across a Grow (shared with C20 / C06)
+            from . import c20 as _c20
+            _c20.clause_stable_pointer(facts, rep, files=('sonic/dom/serialize.h', 'sonic/writebuffer.h'))
         from .. import narrowing
         narrowing.check(facts, rep, 'E3.lossless-narrowing', ('itoa.h',), min_sites=1)
     rep.trust('clang 14 front end and constant evaluator', 'Intel intrinsic lane semantics in sv/sse_interp.py',
